@@ -28,7 +28,7 @@ ASSUMPTIONS = ["freshness is judged on the arrival sequence (V, T) with T the vi
                "ending with the same element"]
 EXPECTED_PROBES = ["reordered", "duplicate", "wraparound", "near_2_23", "time_rule_plus", "time_rule_minus", "final_response",
                    "final_error_code", "icmp_end", "not_observable", "late_notification_con", "late_notification_non",
-                   "iterator_busy_at_end", "blockwise_wrapper", "companion_observation"]
+                   "iterator_busy_at_end", "blockwise_wrapper", "companion_observation", "peer_request_under_observation_token"]
 
 M24 = 1 << 24
 M23 = 1 << 23
@@ -72,7 +72,10 @@ def gen(r, tier):
     # a second observation of the same client at the same server (another resource, another token) with a steady
     # stream of in-order notifications: what happens to one observation must not spill over to the other
     return {"first": first, "events": events, "consumer": consumer, "blockwise": r.chance(0.25),
-            "companion": r.chance(0.25)}
+            "companion": r.chance(0.25),
+            # both roles: shortly before a transport error the server asks the observing context for something (slow
+            # handler) under the very token of the observation (tokens are per direction)
+            "peer_req": r.chance(0.4) and any(e["k"] == "icmp" for e in events)}
 
 
 def systematic(tier):
@@ -167,6 +170,11 @@ class NotifyServer(ScriptedEndpoint):
                     self.send(src, raw=rc.encode(m), fate=["at", base + e["at"]])
                 elif e["k"] == "icmp":
                     self.loop.at(base + e["at"], self.sim.net.icmp, src, self.addr, 111)
+                    if self.scn.get("peer_req"):
+                        self.sim.probe("peer_request_under_observation_token")
+                        self.send(src, msg={"type": rc.CON, "code": rc.GET, "mid": 0x4F00, "token": msg["token"],
+                                            "options": [(rc.URI_PATH, b"slow")], "payload": b""},
+                                  fate=["at", max(self.loop.now + 0.01, base + e["at"] - 0.05)])
             ns = [i for i, e in enumerate(self.scn["events"]) if e["k"] == "n"]
             for i, e in enumerate(self.scn["events"]):
                 if e["k"] == "dup" and e["of"] < len(ns):
@@ -178,7 +186,21 @@ def execute(sim, scn):
     from aiocoap import Message, GET, error
 
     loop = sim.loop
-    client = loop.run_until_complete(sim.client(common.CLIENT_IP))
+    if scn.get("peer_req"):
+        import aiocoap.resource as resource
+
+        class Slow(resource.Resource):
+            async def render_get(self, request):
+                await asyncio.sleep(5.0)
+                return Message(payload=b"slow")
+
+        async def setup_both():
+            site = resource.Site()
+            site.add_resource(["slow"], Slow())
+            return await sim.server(site, common.CLIENT_IP, loggername="coap")
+        client = loop.run_until_complete(setup_both())
+    else:
+        client = loop.run_until_complete(sim.client(common.CLIENT_IP))
     me = sim.local_addr(client)
     server = NotifyServer(sim, common.PEER_IPS[0], 5683, scn)
     delivered = []  # (t, entry, data) in processing order
